@@ -209,6 +209,9 @@ def run():
                           "first %s second %s (options %s, join lists=%s dict=%s): %s [%s]; output %r" % (
                               json.dumps(a)[:200], json.dumps(b)[:200], json.dumps(opts), jl, jd, v["clause"],
                               v.get("fromErr") or v.get("toErr") or "", rr["text"][:300]))
+    # the printer the renderings go through (L2 model: spec/Term.tla): context stack, marks, indentation and the terminal
+    from props import _term
+    _term.check(chk, t)
     for k in (0, len(ok) // 2):
         if ok:
             chk.sample({"first": ok[k][0][0], "second": ok[k][0][1], "options": ok[k][0][2], "rendered": ok[k][1]["text"][:300]})
